@@ -6,10 +6,10 @@
                                         hole source is a truncatable byte
                                         prefix followed by null bytes)
 
-   The block device is a list of sectors, each a list of bytes; a device
-   I/O call is addressed by (0-based sector, offset within sector, length)
-   and may span sectors, exactly like the single ReadAt/WriteAt call the
-   Go code issues for a contiguous run.  The allocator is the *concrete*
+   The block device is one flat list of bytes; a device I/O call is
+   addressed by (0-based sector, offset within sector, length) and may span
+   sectors, exactly like the single ReadAt/WriteAt call the Go code issues
+   for a contiguous run.  The allocator is the *concrete*
    one: a flat free bitmap (true = free; position i is sector number
    i+1) and [a_next] (nextSector).  The three scan phases of
    AllocateContiguous pick "the first free position >= nextSector,
@@ -80,7 +80,7 @@ Record alloc := mkA { a_free : list bool; a_next : nat; a_panic : bool }.
 Definition orc := option (nat * nat * bool).
 
 Record world := mkW {
-  w_dev : list (list N);
+  w_dev : list N;
   w_al : alloc;
   w_fw : orc;      (* device writes *)
   w_fr : orc;      (* device reads *)
@@ -186,55 +186,35 @@ Definition free_list (w : world) (l : list nat) : world :=
 
 (* ---- Block device -------------------------------------------------------- *)
 
-(* bytes [o, o+n) of the sector sequence l, continuing into later sectors *)
-Fixpoint secs_read (l : list (list N)) (o n : nat) : list N :=
-  match l with
-  | [] => []
-  | sec :: tl =>
-    let piece := firstn n (skipn o sec) in
-    if n - length piece =? 0 then piece else piece ++ secs_read tl 0 (n - length piece)
-  end.
+(* The device is one flat list of bytes; sector s (0-based) of size ss
+   occupies positions [s*ss, (s+1)*ss). *)
+Definition dev_get (dev : list N) (pos n : nat) : list N := firstn n (skipn pos dev).
 
-Definition dev_get (dev : list (list N)) (s o n : nat) : list N := secs_read (skipn s dev) o n.
+Definition dev_put (dev : list N) (pos : nat) (data : list N) : list N :=
+  firstn pos dev ++ data ++ skipn (pos + length data) dev.
 
-(* write data at offset o of the first sector of l, continuing *)
-Fixpoint secs_write (l : list (list N)) (o : nat) (data : list N) : list (list N) :=
-  match l with
-  | [] => []
-  | sec :: tl =>
-    match data with
-    | [] => l
-    | _ =>
-      let room := length sec - o in
-      let piece := firstn room data in
-      (firstn o sec ++ piece ++ skipn (o + length piece) sec) :: secs_write tl 0 (skipn room data)
-    end
-  end.
-
-Definition dev_put (dev : list (list N)) (s o : nat) (data : list N) : list (list N) :=
-  firstn s dev ++ secs_write (skipn s dev) o data.
-
-(* blockDevice.ReadAt: returns the bytes obtained and ok *)
-Definition dev_read (w : world) (s o n : nat) : world * list N * errk :=
+(* blockDevice.ReadAt of n bytes at sector s (0-based), offset o: the bytes
+   obtained and the error *)
+Definition dev_read (w : world) (ss s o n : nat) : world * list N * errk :=
   let '(f, o') := tick (w_fr w) in
   let w := set_fr w o' in
   match f with
   | Some (p, short) =>
     let k := Nat.min p (pred n) in
-    (log w (EvDevRead s o n k false), dev_get (w_dev w) s o k, if short then EInternal else EInjected)
-  | None => (log w (EvDevRead s o n n true), dev_get (w_dev w) s o n, ENone)
+    (log w (EvDevRead s o n k false), dev_get (w_dev w) (s * ss + o) k, if short then EInternal else EInjected)
+  | None => (log w (EvDevRead s o n n true), dev_get (w_dev w) (s * ss + o) n, ENone)
   end.
 
-(* blockDevice.WriteAt: returns the number of bytes written and the error *)
-Definition dev_write (w : world) (s o : nat) (data : list N) : world * nat * errk :=
+(* blockDevice.WriteAt: the number of bytes written and the error *)
+Definition dev_write (w : world) (ss s o : nat) (data : list N) : world * nat * errk :=
   let '(f, o') := tick (w_fw w) in
   let w := set_fw w o' in
   let n := length data in
   match f with
   | Some (p, _) =>
     let k := Nat.min p (pred n) in
-    (log (set_dev w (dev_put (w_dev w) s o (firstn k data))) (EvDevWrite s o n k false), k, EInjected)
-  | None => (log (set_dev w (dev_put (w_dev w) s o data)) (EvDevWrite s o n n true), n, ENone)
+    (log (set_dev w (dev_put (w_dev w) (s * ss + o) (firstn k data))) (EvDevWrite s o n k false), k, EInjected)
+  | None => (log (set_dev w (dev_put (w_dev w) (s * ss + o) data)) (EvDevWrite s o n n true), n, ENone)
   end.
 
 (* ---- Hole source: a byte prefix followed by null bytes ----------------- *)
@@ -320,7 +300,7 @@ Definition read_from_sectors (w : world) (f : file) (n si ei o : nat) : world * 
     let '(sector, cnt) := sectors_contiguous (f_secs f) si ei in
     let n' := limit n cnt o in
     if sector =? 0 then read_hole w f n' si o
-    else dev_read w (pred sector) o n'.
+    else dev_read w ss (pred sector) o n'.
 
 (* the loop of ReadAt; rem = bytes still wanted *)
 Fixpoint read_loop (fuel : nat) (w : world) (f : file) (rem si ei o : nat) (acc : list N)
@@ -372,7 +352,7 @@ Definition wns_first (w : world) (f : file) (p : list N) (first si o : nat)
       match e with
       | ENone =>
         let nw := Nat.min (length p) (ss - o) in
-        let '(w, _, e) := dev_write w (pred first) 0 (lead ++ firstn nw p ++ trail) in
+        let '(w, _, e) := dev_write w ss (pred first) 0 (lead ++ firstn nw p ++ trail) in
         (w, skipn nw p, S first, S si, e)
       | _ => (w, p, first, si, e)
       end
@@ -384,7 +364,7 @@ Definition wns_first (w : world) (f : file) (p : list N) (first si o : nat)
 Definition wns_full (w : world) (p : list N) (sector idx : nat) : world * list N * nat * nat * errk :=
   let full := length p / ss in
   if 0 <? full then
-    let '(w, _, e) := dev_write w (pred sector) 0 (firstn (full * ss) p) in
+    let '(w, _, e) := dev_write w ss (pred sector) 0 (firstn (full * ss) p) in
     (w, skipn (full * ss) p, sector + full, idx + full, e)
   else (w, p, sector, idx, ENone).
 
@@ -393,7 +373,7 @@ Definition wns_last (w : world) (f : file) (p : list N) (sector idx : nat) : wor
   if 0 <? length p then
     let '(w, trail, e) := read_hole w f (ss - length p) idx (length p) in
     match e with
-    | ENone => let '(w, _, e) := dev_write w (pred sector) 0 (p ++ trail) in (w, e)
+    | ENone => let '(w, _, e) := dev_write w ss (pred sector) 0 (p ++ trail) in (w, e)
     | _ => (w, e)
     end
   else (w, ENone).
@@ -462,7 +442,7 @@ Definition write_to_sectors (w : world) (f : file) (p : list N) (si ei o : nat)
         (if bad then set_panic w else w, set_secs f secs, n, ENone)
       end
     else
-      let '(w, n, e) := dev_write w (pred sector) o p in
+      let '(w, n, e) := dev_write w ss (pred sector) o p in
       (w, f, n, e).
 
 (* the loop of WriteAt *)
@@ -520,7 +500,7 @@ Definition file_truncate (w : world) (f : file) (size : Z) : world * file * errk
         let '(w, e) :=
           if (size <? f_size f)%N && (si <? length (f_secs f)) && negb (nth si (f_secs f) 0 =? 0) then
             let zl := Nat.min (ss - o) (N.to_nat (N.min (f_size f - size) (N.of_nat ss))) in
-            let '(w, _, e) := dev_write w (pred (nth si (f_secs f) 0)) o (repeat 0%N zl) in
+            let '(w, _, e) := dev_write w ss (pred (nth si (f_secs f) 0)) o (repeat 0%N zl) in
             (w, e)
           else (w, ENone) in
         match e with
@@ -612,7 +592,7 @@ End WithSectorSize.
 (* ---- Pool state and operations ------------------------------------------- *)
 
 Record state := mkSt {
-  st_dev : list (list N);
+  st_dev : list N;
   st_al : alloc;
   st_files : list (option file);     (* nslots entries *)
   st_raw : list (nat * nat);         (* runs obtained by direct allocator calls *)
@@ -620,7 +600,7 @@ Record state := mkSt {
   st_remb : N }.                     (* bytesRemaining *)
 
 Definition init (c : cfg) : state :=
-  mkSt (repeat (repeat poison (c_ss c)) (c_nsec c))
+  mkSt (repeat poison (c_nsec c * c_ss c))
        (mkA (repeat true (c_nsec c)) 0 false)
        (repeat None nslots) [] (c_maxfiles c) (c_maxbytes c).
 
